@@ -55,7 +55,9 @@ func init() {
 				Bounds: [2]string{"predictor 1..7, P 2..16, geometries <= 3x2", "+ 2x3,3x3,1x1x3,2x2x3"}, Stubs: entropyCut[:1]},
 			{Pkg: "jpeg/lossless", Fn: "VerifC13DecVsRef", Desc: "real decodeScan fed with the reference encoder's differences returns the source bytes",
 				Bounds: [2]string{"predictor 1..7, P 2..16, geometries <= 3x2", "+ 2x3,3x3,1x1x3,2x2x3"}, Stubs: entropyCut[:1]},
-			{Pkg: "jpeg/lossless", Fn: "VerifC13Headers", Desc: "conformant 1x1 stream built in the harness with symbolic table destinations Td in 0..3 per component and symbolic Ss in 1..7, decoded by the real Decode",
+			{Pkg: "jpeg/lossless", Fn: "VerifC13Bits", Desc: "2x1 image, real encodeScan with the real Huffman coder: an independent T.81 entropy decoder (canonical codes, SSSS low-order bits, none for SSSS=16, byte-stuffing removal) reads the library's differences; the library decodeScan reads a reference-coded scan followed by further data",
+				Bounds: [2]string{"P = 16 (second difference ranges over all 65536 values)", "P in {16, 8}"}},
+			{Pkg: "jpeg/lossless", Fn: "VerifC13Headers", Desc: "conformant 1x1 stream built in the harness: four different Huffman tables on destinations 0..3 (one DHT segment or four), table destination per component chosen freely, symbolic Ss in 1..7 and symbolic differences, decoded by the real Decode",
 				Bounds: [2]string{"1 and 3 components", "same"}},
 		}})
 
@@ -110,6 +112,7 @@ func init() {
 			c17("jpeg/lossless", "VerifC17Args", "lossless.Encode with all scalar arguments symbolic: accepted => representable", cutNote),
 			c17("jpeg/lossless14sv1", "VerifC17Args", "lossless14sv1.Encode, same", cutNote),
 			c17("jpeg/baseline", "VerifC17Args", "baseline.Encode, same (quality 1..100)", cutNote),
+			c17("jpeg/extended", "VerifC17Args", "extended.Encode (12-bit native path real incl. ScaleQuantTable; 8-bit path delegates to baseline.Encode, replaced by its acceptance condition)", cutNote),
 			c17("jpegls/lossless", "VerifC17Args", "jpegls/lossless.Encode, same", cutNote),
 			c17("jpegls/nearlossless", "VerifC17Args", "nearlossless.Encode, same (NEAR)", cutNote),
 			c17("jpeg2000", "VerifC17Args", "jpeg2000 validateParams with every integer field symbolic + convertPixelData buffer check on images <= 3x2"),
@@ -126,6 +129,8 @@ func init() {
 			{Pkg: "jpeg2000/wavelet", Fn: "VerifC20Layout", Desc: "nextLowpassWindow / LLDimensionsWithParity size arithmetic for symbolic width, height, origin in [1,2^16]", Bounds: [2]string{"levels 0..6 (deep levels decided by the one-shot solvers)", "same"}, BudgetS: [2]int{900, 2400}, OnlyTier: 2},
 			{Pkg: "jpeg2000/mqc", Fn: "VerifC20MQ", Label: "mq:initial-state", Desc: "MQ Encode/Flush -> Decode for every (bit, context) sequence of length k over 2 contexts from the initial state (contexts enumerated, bits symbolic)", Bounds: [2]string{"k = 6", "k = 9"}, Params: [2]map[string]int64{P("k", 6, "symstates", 0), P("k", 9, "symstates", 0)}, Enumerative: true},
 			{Pkg: "jpeg2000/mqc", Fn: "VerifC20MQ", Label: "mq:symbolic-state", Desc: "the same from symbolic context states (state index 0..46 and MPS bit per context are solver variables; qeTable/nmps/nlps/switch become look-up terms)", Bounds: [2]string{"k = 1", "k = 2"}, Params: [2]map[string]int64{P("k", 1, "symstates", 1), P("k", 2, "symstates", 1)}},
+			{Pkg: "jpeg2000/mqc", Fn: "VerifC20MQDecVsRef", Desc: "library MQ decoder vs a transcription of the Annex C decoding procedures on fully symbolic codeword bytes (every FF xx pair, end-of-data handling)", Bounds: [2]string{"3 codeword bytes, 8 decisions, one context", "5 codeword bytes, 14 decisions"}, Params: [2]map[string]int64{P("bytes", 3, "k", 8), P("bytes", 5, "k", 14)}},
+			{Pkg: "jpeg2000/t1", Fn: "VerifC20T1Styles", Desc: "EncodeLayered -> DecodeLayeredWithMode with the encoder's pass lengths for code-block styles (bypass, reset, terminate-all, vertically causal, predictable termination, segmentation symbols): 2-sample blocks with one 5-bit-plane coefficient next to a small one, values and signs symbolic", Bounds: [2]string{"3 styles x 2 orientations", "9 styles x 4 orientations"}, Params: [2]map[string]int64{P("styles", 3, "orients", 2), P("styles", 9, "orients", 4)}, Enumerative: true},
 			{Pkg: "jpeg2000/t1", Fn: "VerifC20T1", Desc: "T1 Encode -> DecodeWithBitplane on small blocks, all passes, orientation 0..3, style 0; sign and magnitude bits symbolic", Bounds: [2]string{"blocks 1x1,2x1,1x2, |c| < 4", "+ 2x2, 1x5, |c| < 4 (1x1..1x2: < 8)"}, Params: [2]map[string]int64{P("shapes", 3, "magbits", 2), P("shapes", 5, "magbits", 2)}, Enumerative: true, BudgetS: [2]int{240, 3000}},
 		}})
 }
